@@ -67,10 +67,12 @@ func init() {
 		}
 		var mu sync.Mutex
 		var wg sync.WaitGroup
+		start := make(chan struct{}) // all workers begin together (their first parse may be the first of the process)
 		for w := 0; w < workers; w++ {
 			wg.Add(1)
 			go func(w int) {
 				defer wg.Done()
+				<-start
 				for it := 0; it < iters; it++ {
 					prepared := shared
 					if prepared == nil {
@@ -105,6 +107,7 @@ func init() {
 				}
 			}(w)
 		}
+		close(start)
 		wg.Wait()
 		res.OpenConns = splugin.OpenConns.Load()
 		res.Census0, res.Leak, res.SettleMS = settle(1000)
